@@ -51,6 +51,7 @@ type c13link struct {
 func (l *c13link) getPhase() int { l.mu.Lock(); defer l.mu.Unlock(); return l.phase }
 
 type c13op struct {
+	db    int // database the client wrote in
 	site  *c13site
 	id    string // unique key carried by every command of the op
 	cmds  [][]string
@@ -72,6 +73,7 @@ type c13sim struct {
 	applTxn     map[string]map[int]bool
 	marker      []byte // a marker value observed in the wild (reused as a client value)
 	multiDB     bool   // clients also write in database 1
+	db1Excluded bool   // ... which both links exclude
 }
 
 func (c *c13sim) setViolation(rule, sig, format string, a ...any) {
@@ -235,6 +237,7 @@ func (c *c13sim) clientOp(s *c13site) {
 	cl := s.client
 	if c.multiDB && g.Choose("opdb", 4) == 0 {
 		cl = s.client1
+		op.db = 1
 	}
 	disp := func(args ...string) {
 		bs := make([][]byte, len(args))
@@ -343,6 +346,9 @@ func runC13(r *Run, stratum string) *Violation {
 		flavour = "5"
 	}
 	c.multiDB = stratum != "snapshot" && g.Choose("multidb", 2) == 0
+	// with two databases in use, both links may exclude database 1 (output.filter.dbBlacklist): what clients write
+	// there stays local, everything else crosses over exactly once as before
+	c.db1Excluded = c.multiDB && g.Choose("db1excluded", 3) == 0
 	c.a = c.newSite("A", "10.1.0.1:6379", "a"+hexID(g.Bytes("ida", 20))[1:], flavour)
 	c.b = c.newSite("B", "10.2.0.1:6379", "b"+hexID(g.Bytes("idb", 20))[1:], flavour)
 	modes := []string{"sync", "pipeline", "parallel"}
@@ -355,6 +361,10 @@ func runC13(r *Run, stratum string) *Violation {
 	}
 	c.ab = &c13link{name: "A>B", from: c.a, to: c.b, cfg: bisyncCfg(g, mode()), cpName: "redis-gunyu-checkpoint-bisync:aaaaaaaaaaaaaaaaaaaaaaaa"}
 	c.ba = &c13link{name: "B>A", from: c.b, to: c.a, cfg: bisyncCfg(g, mode()), cpName: "redis-gunyu-checkpoint-bisync:bbbbbbbbbbbbbbbbbbbbbbbb"}
+	if c.db1Excluded {
+		c.ab.cfg.Filters = &FilterSpec{DbBlacklist: []int{1}}
+		c.ba.cfg.Filters = &FilterSpec{DbBlacklist: []int{1}}
+	}
 	if stratum == "snapshot" {
 		o := rdbgen.GenOpts{NowMs: time.Now().UnixMilli(), MaxKeys: 1 + g.Choose("snapkeys", 14), MaxElems: 1 + g.Choose("snapelems", 10), MaxElemLen: 48,
 			UniqueAcrossDBs: true, MaxDBs: 1, NoStreams: flavour == "5" && g.Choose("nostreams", 2) == 0}
@@ -497,6 +507,12 @@ func runC13(r *Run, stratum string) *Violation {
 		for _, op := range c.ops {
 			for _, cmd := range op.cmds {
 				key := op.id + "/" + cmd[1]
+				if c.db1Excluded && op.db == 1 {
+					if c.applied[key] != 0 {
+						c.setViolation("C13.excluded_db_forwarded", "a write in an excluded database was sent to the other site", "client write %s [%s] made in database 1 of site %s, which both links exclude, was applied %d times at the other site", op.id, strings.Join(cmd, " "), op.site.name, c.applied[key])
+					}
+					continue
+				}
 				if c.applied[key] != 1 {
 					peer := "B"
 					if op.site == c.b {
